@@ -259,7 +259,7 @@ func (s *PredicatePartitionStrategy) Limit() int {
 func (s *PredicatePartitionStrategy) BinBusyCount(idx int) (int, error) {
 	s.mu.RLock()
 	defer s.mu.RUnlock()
-	if idx < 0 || idx-1 > len(s.partitions) {
+	if idx < 0 || idx >= len(s.partitions) {
 		return 0, fmt.Errorf("invalid bin index %d", idx)
 	}
 	partition := s.partitions[idx]
@@ -270,7 +270,7 @@ func (s *PredicatePartitionStrategy) BinBusyCount(idx int) (int, error) {
 func (s *PredicatePartitionStrategy) BinLimit(idx int) (int, error) {
 	s.mu.RLock()
 	defer s.mu.RUnlock()
-	if idx < 0 || idx-1 > len(s.partitions) {
+	if idx < 0 || idx >= len(s.partitions) {
 		return 0, fmt.Errorf("invalid bin index %d", idx)
 	}
 	partition := s.partitions[idx]
